@@ -552,17 +552,43 @@ class CallMixin:
             raise Unsupported('spec function %s arity' % f.name)
         in_quant = getattr(fc, 'in_quant', False)
         if not f.recursive:
-            return self.eval_spec_body(f, vs, p, fc)
+            # memo: the value of a non-recursive spec function is determined by its argument terms, the heap arrays
+            # it may read (identity of the z3 terms), the old() snapshot and the enclosing bound variables
+            try:
+                akey = tuple((type(v).__name__, v.t.get_id() if getattr(v, 't', None) is not None else id(v), getattr(v, 'cls', None)) for v in vs)
+            except Exception:
+                akey = None
+            key = None
+            if akey is not None:
+                hkey = tuple(sorted((n, a.get_id() if hasattr(a, 'get_id') else id(a)) for n, a in p.heap.items()))
+                okey = id(fc.old[1]) if fc.old is not None else 0
+                bkey = tuple(sorted((n, b.t.get_id()) for n, b in getattr(fc, 'bound', {}).items()))
+                key = (f.name, akey, hkey, okey, bkey, in_quant, p.epoch, getattr(fc, 'unfold_depth', 0))
+                memo = getattr(self, '_spec_memo', None)
+                if memo is None:
+                    memo = self._spec_memo = {}
+                hit = memo.get(key)
+                if hit is not None:
+                    val, facts, keep_alive = hit
+                    for a in facts:
+                        p.assume(a)
+                    return val
+            n0 = len(p.pc)
+            val = self.eval_spec_body(f, vs, p, fc)
+            if key is not None:
+                # keep the argument / heap terms alive so that their ids cannot be recycled
+                self._spec_memo[key] = (val, list(p.pc[n0:]), (list(vs), dict(p.heap)))
+            return val
         terms = [self.coerce_to(v, t) for v, (n, t) in zip(vs, f.params)]
         uf = self.spec_uf(f)
         app = uf(*terms)
         res = self.value_of_type(app, f.ret)
         # definitional unfolding, once per syntactic application and path (depth 1)
         depth = getattr(fc, 'unfold_depth', 0)
-        key = 'unf:' + app.sexpr()
+        key = 'unf:%d' % app.get_id()
         if not in_quant and depth < 1 and key not in p.ghost:
             p.ghost = dict(p.ghost)
-            p.ghost[key] = True
+            p.ghost[key] = app          # keeps the term alive: its id cannot be recycled
             sfc = FnCtx(self.specs.module_ctx, 'spec:' + f.name, spec=True)
             sfc.unfold_depth = depth + 1
             sfc.old = fc.old
